@@ -14,6 +14,7 @@ from .. import suite as S
 
 PROP = "C14"
 PROP_V = "theories/props/C14.v"
+MODEL_AREAS = ('front', 'tc', 'run')
 
 
 def first_word(x):
